@@ -6,6 +6,7 @@ import (
 	"errors"
 	"fmt"
 	"io"
+	"runtime/debug"
 	"runtime/metrics"
 
 	"golang.org/x/text/transform"
@@ -217,10 +218,10 @@ func c03st(w *fw.Worker) *c03state {
 // monitor runs one target on one input under the three resource monitors.
 func monitor(c *fw.Case, tg target, in []byte) (err error, bad bool) {
 	st := c03st(c.W)
-	if st.allocViol[tg.name] >= 5 {
-		// this target has already been caught over-allocating five times in this worker; every further
-		// gigabyte-sized allocation only costs time and adds nothing to the verdict
-		c.Count("calls_skipped_after_5_alloc_violations", 1)
+	if st.allocViol[tg.name] >= 2 {
+		// this target has already been caught over-allocating twice in this worker; every further
+		// gigabyte-sized allocation only costs time and memory and adds nothing to the verdict
+		c.Count("calls_skipped_after_2_alloc_violations", 1)
 		return nil, false
 	}
 	buf := append([]byte(nil), in...) // the library gets its own copy; `in` stays the witness
@@ -253,6 +254,7 @@ func monitor(c *fw.Case, tg target, in []byte) (err error, bad bool) {
 		}
 		if d > bound {
 			st.allocViol[tg.name]++
+			debug.FreeOSMemory()
 			c.Failf("alloc/"+tg.name, "target %s allocated %d octets for a %d-octet input (bound 2 MiB + 64*len, minimum of three runs)\ninput=%s", tg.name, d, len(in), hx(in))
 			return err, true
 		}
@@ -391,9 +393,15 @@ func init() {
 						case 2:
 							vals = []uint64{0, 1, 0x7f, 0x80, 0xff, 0x7fff, 0x8000, 0xffff, uint64(len(img))}
 						default:
-							vals = []uint64{0, 1, 3, 4, uint64(len(img) - 1), uint64(len(img) + 1), 0x7fffffff, 0x80000000, 0xfffffff0, 0xffffffff}
+							vals = []uint64{0, 1, 3, 4, uint64(len(img) - 1), uint64(len(img) + 1), 0x10000, 0x4000000, 0x7fffffff, 0x80000000, 0xfffffff0, 0xffffffff}
 						}
 						for _, x := range vals {
+							if x > 1<<28 && (s.allocViol[tt.name] > 0 || s.allocViol[dd.name] > 0) {
+								// the 64 MiB value has already shown that this decoder allocates what the field announces;
+								// gigabyte-sized repeats would only exhaust the machine
+								c.Count("giant_lengths_skipped_after_alloc_violation", 1)
+								continue
+							}
 							m := append([]byte(nil), img...)
 							switch widths[i] {
 							case 1:
@@ -414,15 +422,25 @@ func init() {
 				Name: "octets", N: q(6000, 150000),
 				Run: func(c *fw.Case) {
 					s := c03st(c.W)
-					t, _, img := seedImage(c, ts())
+					t, v, img := seedImage(c, ts())
 					tt, dd := s.byType[t.Family+"."+t.Go], s.byFamily[t.Family]
 					if len(img) > 220 {
 						img = img[:220]
+					}
+					big := map[int]bool{}
+					offs, widths := lengthOffsets(t, v)
+					for i, off := range offs {
+						if widths[i] == 4 && off > 0 {
+							big[off] = true
+						}
 					}
 					for off := range img {
 						for _, x := range []byte{0, 1, 0x7f, 0x80, 0xff} {
 							if img[off] == x {
 								continue
+							}
+							if big[off] && x > 0x3f {
+								x = 0x3f // top octet of a 32-bit length field: stay below 1 GiB (lengthfields covers the giants once)
 							}
 							m := append([]byte(nil), img...)
 							m[off] = x
